@@ -19,6 +19,90 @@ import (
 func init() {
 	commands["c07-cache"] = c07Cache
 	commands["c07-cases"] = c07Cases
+	commands["c07-expiry"] = c07Expiry
+}
+
+// c07Expiry: handshakes that begin just before a cached leaf expires (Mitm.tla: the clock moves on while the leaf is on
+// its way, `aged`). Certificate times have one-second granularity, so every leaf made within the same second expires at
+// the same instant T; the CONNECTs are answered beforehand and the TLS handshakes start at T-30 ms ... T-0.5 ms. The
+// client notes the time at which it verifies the chain: the leaf must not have expired by then.
+func c07Expiry(e *env) {
+	_, mitmCA := harnessCAs()
+	const n = 48
+	rounds := 3
+	fmt.Sscan(e.args["rounds"], &rounds)
+	for round := 0; round < rounds; round++ {
+		res := map[string]any{"ok": true, "round": round, "handshakes": n}
+		f, err := startFwd(fwdCfg{Name: "fwd", Localhost: "allow", MITM: true, MITMValidity: 2 * time.Second, MITMCacheSize: 1024, MITMCacheTTL: time.Hour})
+		if err != nil {
+			fatal("start: %v", err)
+		}
+		// begin right after a second has begun, so that every leaf of the warm-up falls into the same second
+		time.Sleep(time.Until(time.Now().Truncate(time.Second).Add(time.Second + 20*time.Millisecond)))
+		names := make([]string, n)
+		var notAfter time.Time
+		for i := range names {
+			names[i] = fmt.Sprintf("h%d-r%d.expiry.test", i, round)
+			cl, chain, _, err := mitmHandshake(f, names[i]+":443", names[i])
+			if err != nil {
+				fatal("warm-up handshake: %v", err)
+			}
+			cl.close()
+			if i == 0 {
+				notAfter = chain[0].NotAfter
+			} else if !chain[0].NotAfter.Equal(notAfter) {
+				res["skipped"] = "the warm-up did not fit into one second"
+			}
+		}
+		var mu sync.Mutex
+		var late []string
+		straddled := 0
+		var wg sync.WaitGroup
+		for i := range names {
+			i := i
+			wg.Add(1)
+			go func() {
+				defer wg.Done()
+				cl, err := dialRaw(f.addr)
+				if err != nil {
+					return
+				}
+				defer cl.close()
+				auth := names[i] + ":443"
+				cl.send([]byte("CONNECT " + auth + " HTTP/1.1\r\nHost: " + auth + "\r\n\r\n"))
+				if r, err := cl.recv("CONNECT", 8*time.Second); err != nil || r.Status != 200 {
+					return
+				}
+				start := notAfter.Add(-time.Duration(30-i*30/n)*time.Millisecond - 500*time.Microsecond)
+				time.Sleep(time.Until(start))
+				var verifiedAt time.Time
+				var leaf *x509.Certificate
+				cfg := &tls.Config{InsecureSkipVerify: true, ServerName: names[i], VerifyConnection: func(cs tls.ConnectionState) error {
+					verifiedAt, leaf = time.Now(), cs.PeerCertificates[0]
+					return nil
+				}}
+				if err := cl.startTLS(cfg); err != nil || leaf == nil {
+					return
+				}
+				mu.Lock()
+				defer mu.Unlock()
+				if leaf.NotAfter.Equal(notAfter) && verifiedAt.After(notAfter) {
+					straddled++
+				}
+				if err := verifyChain([]*x509.Certificate{leaf, mitmCA.cert}, mitmCA, names[i], verifiedAt); err != nil {
+					late = append(late, fmt.Sprintf("%s: handshake begun %s before the cached leaf's notAfter, chain verified %s after it: %v",
+						names[i], notAfter.Sub(start).Round(100*time.Microsecond), verifiedAt.Sub(notAfter).Round(100*time.Microsecond), err))
+				}
+			}()
+		}
+		wg.Wait()
+		f.stop()
+		res["served_old_leaf_after_expiry"] = straddled
+		if len(late) > 0 {
+			res["ok"], res["why"], res["late"] = false, "certificate already expired when the client verifies it: "+late[0], late
+		}
+		e.emit(res)
+	}
 }
 
 const c07Unit = 1500 * time.Millisecond // certificate times have one-second granularity
